@@ -40,7 +40,10 @@ Descriptors ==
         [op |-> "append_garbage"], [op |-> "oversize"], [op |-> "duplicate_datagram"], [op |-> "drop_datagram"],
         \* a compressed split reply in which every field is legal (the declared size is small, the fragments are complete)
         \* and whose bzip2 stream expands to BombMiB: "proportion to the bytes actually received" is about the stream, too
-        [op |-> "decompression_bomb"]}
+        [op |-> "decompression_bomb"],
+        \* the server answers every request with another (distinct) challenge, FloodRounds times, each challenge reply a compressed
+        \* split reply that expands to FloodBytes: what a client keeps must not grow with the number of rounds
+        [op |-> "challenge_flood"]}
   \cup {[op |-> "set_num", b |-> b] : b \in NumBoundaries}
   \cup {[op |-> "set_textnum", b |-> b] : b \in TextNumBoundaries}
   \cup {[op |-> "set_lit_byte", v |-> v] : v \in LitByteValues}          \* counts, flags, totals, indices, headers
@@ -66,6 +69,8 @@ AmplifyRepeat(item) == item.k = "txt" \/ (item.k = "f" /\ item.ty \in StrTypes)
 ExtremeReversed == [op |-> "extreme_reversed", of |-> {"set_num", "set_textnum", "set_lit_byte", "set_txt_index"}]
 
 BombMiB == 128
+FloodRounds == 1100
+FloodBytes == 65000
 BombDeclared == {4096, 8 * 1024 * 1024 - 1}      \* declared sizes (the second one just below the largest a client accepts)
 
 \* which items a descriptor applies to
